@@ -33,6 +33,8 @@ def main():
             scratch = True
         elif t == '--inplace':
             scratch = False
+        elif t == '--stop-on-caught':
+            os.environ['TRY_STOP_ON_CAUGHT'] = '1'
         else:
             checks.append(t)
     d = os.path.join(VERIF, 'seeded', name)
@@ -102,6 +104,8 @@ def run_scratch(name, d, patch, tier, seed, checks):
             keys = sorted(set(l.split('#', 1)[1].strip().split(': ')[0] for l in viol if '#' in l))
             print('%-28s %s %s seed %s: %s %s  %.0fs' % (name, c, tier, seed, verdict, keys[:4], time.time() - t0))
             out.append(dict(kind='check', check=c, tier=tier, seed=seed, verdict=verdict, keys=keys, mode='scratch-worktree', tail=(p.stdout + p.stderr)[-400:] if verdict.startswith('inconcl') else ''))
+            if os.environ.get('TRY_STOP_ON_CAUGHT') and (verdict == 'caught' or verdict.startswith('inconcl')):
+                break
     finally:
         sh('git -C /repo worktree remove --force ' + wt)
         shutil.rmtree(bd, ignore_errors=True)
